@@ -95,10 +95,22 @@ Before(a, b) == T(a).prio > T(b).prio \/ (T(a).prio = T(b).prio /\ T(a).seq < T(
 Fwd(t) == ts[t].fwd
 ReadyF(t) == \A d \in AllDeps(t) : d.p # 0 /\ ts[d.p].sched
 \* forward: earliest instant; a container's start is a lower bound (D8), the task's own start a pin
+\* `gaplength`: a gap in WORKING time of the project calendar (default hours, project time, minus global vacations and
+\* holidays), counted in whole slots from the slot that contains the predecessor's date; the bound is the start of the slot
+\* after the last counted one, or the end of the horizon.  The count is the number of whole HOURS written, whatever the
+\* slot length (D24, spec follows code); `gapduration` on the same edge takes precedence.
+ProjWork(s) == DefaultAt(s * G) /\ ~InAny(P.vac, s * G) /\ ~InAny(P.gleaves, s * G)
+GapLenBound(x, k) == LET s0 == x \div G IN
+   IF k <= 0 THEN s0 * G
+   ELSE IF s0 >= P.N THEN s0 * G
+   ELSE LET w == SelectSeq([i \in 1..(P.N - s0) |-> s0 + i - 1], LAMBDA s : ProjWork(s))
+        IN  IF Len(w) >= k THEN (w[k] + 1) * G ELSE P.N * G
+DepTime(d) == LET x == IF d.onstart THEN ts[d.p].start ELSE ts[d.p].end
+              IN  IF d.gap > 0 \/ ~d.gaplen THEN x + d.gap ELSE GapLenBound(x, d.glen)
 BoundF(t) ==
   IF T(t).pin >= 0 THEN T(t).pin
   ELSE MaxOf({0} \cup (IF T(t).inhStart >= 0 THEN {T(t).inhStart} ELSE {})
-                 \cup {(IF d.onstart THEN ts[d.p].start ELSE ts[d.p].end) + d.gap : d \in {x \in AllDeps(t) : x.p # 0}})
+                 \cup {DepTime(d) : d \in {x \in AllDeps(t) : x.p # 0}})
 
 \* backward: latest instant.  Container end reaches terminal ALAP leaves (no FS successor, no on-start dep).
 RECURSIVE NearestEnd(_)
@@ -183,6 +195,9 @@ IsFirstBookable(t, s) ==
             ELSE s <= ts[t].cur /\ BookableC(t, s) /\ \A u \in (s+1)..ts[t].cur : ~BookableC(t, u)
 NoneBookable(t) == IF Fwd(t) THEN \A u \in ts[t].cur..(P.N - 1) : ~BookableC(t, u)
                              ELSE \A u \in 0..ts[t].cur : ~BookableC(t, u)
+\* a bound (pin, dependency bound, deadline) that lies outside the scheduling horizon: the task stays unscheduled (F24, F32)
+\* (the first slot the walk would look at must exist: slot of the bound going forward, slot before the deadline going backward)
+BoundOutside(t) == ts[t].dl < 0 \/ (IF Fwd(t) THEN ts[t].dl \div G > P.N - 1 ELSE ts[t].dl \div G - 1 > P.N - 1)
 Take(t, r, s) == Cap(r) - Base(t, r, s)
 Keep(t, r) == Need(t, r) - (ts[t].done - ts[t].last)        \* ticks of the last booking that are needed
 EndTicksF(t, r, s) == s * Cap(r) + ts[t].base + Keep(t, r)   \* exact end, in ticks from project start
